@@ -20,7 +20,10 @@ Import ListNotations.
 Open Scope string_scope.
 Open Scope Z_scope.
 
-Class Xops (O : Fops) := { fln : F O -> F O }.
+(* fln: natural logarithm.  fexpx: exponential (same function as [fexp O]; the Q instance
+   below is a cheaper approximation than QInst.qexp for the strongly negative arguments of
+   Gaussian tails) *)
+Class Xops (O : Fops) := { fln : F O -> F O; fexpx : F O -> F O }.
 
 Section Ext.
 Variable O : Fops.
@@ -97,7 +100,7 @@ Definition sc_exp_out (x out : val) : val :=
   | VVar _ (ENum _ v _) u d =>
       if is_float d then
         if deqb (ud O u) dzero && fclose O (us O u) f1
-        then VVar O (ENum O (fexp O v) None) (u_one O) d
+        then VVar O (ENum O (fexpx v) None) (u_one O) d
         else VErr O "UnitError"
       else VErr O "DTypeError"
   | _ => VErr O "TypeError"
@@ -175,7 +178,7 @@ Definition py_for_range (lo hi step : val) (f : val -> val -> val) (init : val) 
 End Ext.
 
 (* ---------- instances *)
-Global Instance RX (h mn : R) : Xops (ROps h mn) := { fln := ln }.
+Global Instance RX (h mn : R) : Xops (ROps h mn) := { fln := ln; fexpx := exp }.
 
 (* ln over Q: ln x = 2 atanh((x-1)/(x+1)), fixed point 2^-140, 160 terms; accurate
    (1e-40) for x in about [1/3, 3] — the code only takes ln 2 *)
@@ -188,4 +191,15 @@ Definition qln (x : Q) : Q :=
   if Qle_bool x 0 then 0%Q
   else let t := to_fx ((x - 1) / (x + 1))%Q in
        of_fx (2 * atanh_series 160 0 t (fxmul t t) 0).
-Global Instance QX (h mn : Q) : Xops (QOps h mn) := { fln := qln }.
+(* exp over Q by argument reduction x = n ln 2 + r, |r| <= 0.35: exp x = 2^n exp r with exp r
+   from the fixed-point series of QInst (2^-140); dyadic result, no gcd.  Relative accuracy
+   about 1e-40 for |x| <= 1e9 (ln 2 is given to 240 bits). *)
+Definition LN2_240 : Z := 1224685061431752149387114016819916847747660333428801675508466606222838698.
+Definition qln2 : Q := Qmake LN2_240 (Pos.pow 2 240).
+Definition qexp2 (x : Q) : Q :=
+  let n := Qfloor (x / qln2 + (1 # 2)) in
+  let r := (x - (n # 1) * qln2)%Q in
+  let m := exp_series 40 0 SH (to_fx r) 0 in
+  if (0 <=? n)%Z then Qmake (m * Z.pow 2 n) PP
+  else Qmake m (PP * Z.to_pos (Z.pow 2 (- n))).
+Global Instance QX (h mn : Q) : Xops (QOps h mn) := { fln := qln; fexpx := qexp2 }.
